@@ -84,4 +84,18 @@ Section Ext.
     induction (snd p) as [|k l IH]; cbn [existsb]; [reflexivity|].
     rewrite crypto_verify_pm_eq, IH. reflexivity.
   Qed.
+  Lemma verify_rrsig_pm_eq signer keys answer ns :
+    verify_rrsig_pm PM H ECP ECV EDV LIBV signer keys answer ns = verify_rrsig H ECP ECV EDV LIBV signer keys answer ns.
+  Proof.
+    unfold verify_rrsig, verify_rrsig_pm. destruct (is_nil keys); [reflexivity|].
+    unfold walk_verdict.
+    destruct (existsb _ (walk_answer signer answer ns)); [reflexivity|].
+    destruct (is_nil (walk_records signer answer ns)); [reflexivity|].
+    assert (FE : forall (f g : rr -> bool) l, (forall x, f x = g x) -> forallb f l = forallb g l).
+    { intros f g l E. induction l as [|x l IHl]; cbn [forallb]; [reflexivity|]. rewrite E, IHl. reflexivity. }
+    apply FE. intros r. unfold walk_group_verified.
+    induction (walk_sigs answer ns) as [|sv l IH]; cbn [existsb]; [reflexivity|].
+    rewrite IH. destruct (sig_covers _ (fst sv) r); [|reflexivity].
+    rewrite verify_one_sig_pm_eq. reflexivity.
+  Qed.
 End Ext.
